@@ -1351,7 +1351,8 @@ def fwd_acceleration(m: Model, d: Data, factorize: bool = False):
 
 def _energy_pos(m: Model, d: Data):
   if m.opt.enableflags & EnableBit.ENERGY:
-    if m.sensor_e_potential == 0:  # not computed by sensor
+    # not computed by sensor (sensors do not run when they are disabled)
+    if m.sensor_e_potential == 0 or (m.opt.disableflags & DisableBit.SENSOR):
       sensor.energy_pos(m, d)
   else:
     d.energy.zero_()
@@ -1359,7 +1360,8 @@ def _energy_pos(m: Model, d: Data):
 
 def _energy_vel(m: Model, d: Data):
   if m.opt.enableflags & EnableBit.ENERGY:
-    if m.sensor_e_kinetic == 0:  # not computed by sensor
+    # not computed by sensor (sensors do not run when they are disabled)
+    if m.sensor_e_kinetic == 0 or (m.opt.disableflags & DisableBit.SENSOR):
       sensor.energy_vel(m, d)
 
 
@@ -1377,7 +1379,8 @@ def _forward(m: Model, d: Data, skip_sensor: bool = False):
 
   fwd_position(m, d, factorize=False)
   if not skip_sensor:
-    d.sensordata.zero_()
+    if not (m.opt.disableflags & DisableBit.SENSOR):  # disabled sensors leave sensordata untouched
+      d.sensordata.zero_()
     sensor.sensor_pos(m, d)
   _energy_pos(m, d)
 
@@ -1416,7 +1419,8 @@ def step(m: Model, d: Data):
 def step1(m: Model, d: Data):
   """Advance simulation in two phases: before input is set by user."""
   fwd_position(m, d)
-  d.sensordata.zero_()
+  if not (m.opt.disableflags & DisableBit.SENSOR):  # disabled sensors leave sensordata untouched
+    d.sensordata.zero_()
   sensor.sensor_pos(m, d)
 
   _energy_pos(m, d)
